@@ -2,7 +2,7 @@
 # modules decide each property. engines: (name, n_quick, n_thorough)
 PROPS = {
     'C05': {
-        'lean_modules': ['C05', 'C05t'],
+        'lean_modules': ['C05', 'C05t', 'C05i', 'C05u'],
         'engines': [('rl', 400, 20000), ('pub', 300, 5000), ('conn', 150, 3000), ('sub', 100, 2000), ('unsub', 100, 2000),
                     ('ack', 80, 800), ('empty', 1, 1), ('val', 80, 800), ('apipub', 200, 4000), ('apiconn', 100, 2000),
                     ('inpub', 200, 4000), ('inflow', 150, 1500)],
